@@ -102,7 +102,9 @@ def arg_get(t, ty, fn, argname, skip):
             return "", ""
         return "let %s: usize = s.idx(%d);" % (v, b), v
     if t == "F":
-        return "", "|v| v + v"
+        # the closure records every argument it is handed: a caller's closure is part of the public surface
+        # (it must be called once per visible lane, with the visible lanes, in order)
+        return "let seen_f = std::cell::RefCell::new(Vec::new());", "|v| { seen_f.borrow_mut().push(v); v + v }"
     m = re.fullmatch(r"&\s*\[(f32|f64)\]", t)
     if m:
         n = TYPES[ty][2]
@@ -244,6 +246,8 @@ def parse_file(ty, path, backend="sse2"):
             body.append("%s(%s);" % (path_, ", ".join(allargs)))
         else:
             body.append("{ let r = %s(%s); o.put(&r); }" % (path_, ", ".join(allargs)))
+        if any(b.startswith("let seen_f") for b in binds):
+            body.append("o.put(&*seen_f.borrow());")
         # observe mutated things
         if recv == "mut":
             body.append("o.put(&a_self);")
